@@ -398,10 +398,15 @@ func TestCliTmpl(t *testing.T) {
 				}
 				if pair == "-" {
 					fail("renewing REQUEST does not ask for a unicast socket")
+				} else if !src.Equal(off) || !dst.Equal(srv) {
+					fail("renewing REQUEST is not handed to the link layer as a unicast from the leased address to the server (source/destination of the send differ from the packet's)")
 				}
 			case "rebinding":
 				if q.Type != 3 || !q.Src.Equal(off) || !q.Dst.Equal(net.IPv4bcast) || !ci.Equal(off) || has(50) || has(54) {
 					fail("rebinding REQUEST is not a broadcast from the leased address with ciaddr set and neither option")
+				}
+				if pair != "-" {
+					fail("rebinding REQUEST is not handed to the link layer as a broadcast")
 				}
 			}
 			if q.M.Xid != xid {
